@@ -22,8 +22,10 @@ EXTENDS Naturals, Sequences, FiniteSets, TLC, IOUtils
 
 CONSTANT Variant
 Thorough == "VERIF_TIER" \in DOMAIN IOEnv /\ IOEnv.VERIF_TIER = "thorough"
-T == 1..3
-MaxRefs == IF Thorough THEN 3 ELSE 2
+\* bounds: 3 types x <= 2 references (quick), 3 x 3 (thorough); MC_TYPES / MC_REFS override (4 types x 2 in the thorough tier)
+NT == IF "MC_TYPES" \in DOMAIN IOEnv THEN atoi(IOEnv.MC_TYPES) ELSE 3
+T == 1..NT
+MaxRefs == IF "MC_REFS" \in DOMAIN IOEnv THEN atoi(IOEnv.MC_REFS) ELSE IF Thorough THEN 3 ELSE 2
 RefLists == UNION {[1..k -> T] : k \in 0..MaxRefs}
 
 VARIABLES tab, prim, work, seen, pc
